@@ -243,6 +243,8 @@ func (s *c01Summ) noWriteOnEdge(e an.CondEdge, call *ssa.Call) bool {
 }
 
 func runC01(c *an.Ctx) {
+	c.Floor("C01-R10", 1)
+	mainPipeline(c, "C01-R10")
 	c.Floor("C01-R1", 1)
 	c.Floor("C01-R2", 2)
 	c.Floor("C01-R3", 20)
